@@ -1240,6 +1240,18 @@ def run_purity(case, ref=None, budget_fresh=0):
         outside = False
         if q['q'] in ('CURV', 'GROW', 'IMP') and all(v is None for v in want):
             outside = True
+        if q['q'] == 'IMP' and not outside:
+            # since 6b0eeda an object without a valid equilibrium answers 0 (no nucleation) instead of None: the point is outside
+            # the stable range exactly when the curvature query of a fresh object has no answer there
+            wc = ref.answer(dict(q, q='CURV'), method)
+            if all(v is None for v in wc):
+                outside = True
+        if q['q'] in ('CURV', 'GROW') and not outside:
+            # degenerate reference equilibrium: pycalphad's global minimiser pinned a solute of the matrix at its lower bound
+            # (e.g. Al-Mg-Si at 421 K: x_Si = 2.5e-13); such a point has no usable tie-line, the history ends there
+            ceq = want[4] if q['q'] == 'CURV' else want[3]
+            if ceq is not None and np.any(np.abs(np.asarray(ceq, dtype=float)) < 1e-9):
+                outside = True
         if q['q'] == 'DF' and want[0] is None:
             outside = True            # (a negative driving force is a regular answer: compared, and the history goes on)
         if q['q'] in ('IC', 'ICM') and want[0] is not None and np.any(np.asarray(want[0]) < 0):
@@ -1327,6 +1339,14 @@ def classify_start_dependence(case, hits):
         if cls == 'DF tangent' and clause in ('history_independent', 'repeat_same', 'batch_is_pointwise'):
             op = H[idx] if idx < len(H) else {'q': 'batch', 'kind': 'DF', 'rm': False}
             kept = not op.get('rm', False)
+            # removeCache=True only keeps THIS query from storing its sets: it still starts from the set an earlier
+            # removeCache=False driving-force query of the phase left behind
+            for o in reversed(H[:min(idx, len(H))]):
+                if o.get('q') in ('clear', 'method'):
+                    break
+                if (o.get('q') == 'DF' or (o.get('q') == 'batch' and o.get('kind') == 'DF')) and o.get('ph') == op.get('ph', o.get('ph')):
+                    kept = kept or not o.get('rm', False)
+                    break
             if kept and any(wide(o) for o in H[:idx + 1]):
                 cls = KF_START
         out.append((clause, cls, msg, idx))
